@@ -219,4 +219,9 @@ theorem C11_name_format :
     (toString 2 ++ toString 10 = toString 21 ++ toString 0) ∧ (toString 2 ++ "_" ++ toString 10 ≠ toString 21 ++ "_" ++ toString 0) := by
   decide
 
+/-- **name before counter** (regenerated): the model's `probe` uses the counter value as the name and moves the counter on; the code does
+so only if every name is built BEFORE the increment that follows it.  With the increment first, the name chosen after a collision
+is the first choice of the process's NEXT function, whose `dlopen` then returns the object that is still loaded. -/
+theorem C11_counter_order : Gen.FuncCompile.nameBuiltBeforeCounterIncrement = true := by decide
+
 end Sympler.FuncCompile
